@@ -3,6 +3,8 @@
   ./vcheck selftest determinism [Cxx ...] [--runs N]
         every property: the same batch of seeds executed three times - 16 workers, 3 workers, and a fresh
         interpreter under another PYTHONHASHSEED - must give identical per-run event-log digests.
+  ./vcheck selftest reach [Cxx ...]
+        reach probes and site coverage of the quick checks on the unchanged tree.
   ./vcheck selftest seeded [id ...]
         every confirmed seeded change under /verif/seeded: applied in a scratch worktree of /repo, the quick check of
         its property (and of the properties listed in meta.json "detected_by") must report a violation; the unchanged
@@ -78,6 +80,25 @@ def seeded(args):
     return 0 if not miss else 1
 
 
+def reach(args):
+    """every quick check on the unchanged tree: no reach probe stuck at zero, no masked-ufunc / np.empty site of the
+    numerical modules left unexecuted under poison (the three MPI receive-buffer sites are C14's)"""
+    props = [a.upper() for a in args] or ALL
+    bad = 0
+    for pid in props:
+        ev = os.path.join(VERIF, '.build', 'selftest-evidence')
+        env = dict(os.environ, VERIF_EVIDENCE_DIR=ev)
+        p = subprocess.run([os.path.join(VERIF, 'vcheck'), 'run', pid, 'quick'], env=env, stdout=subprocess.PIPE, stderr=subprocess.STDOUT, text=True)
+        cov = json.load(open(os.path.join(ev, pid + '.json')))['coverage']
+        warn = cov.get('reach_warning') or []
+        unc = [u for u in cov.get('uncovered_sites', []) if not u.startswith('mpi/')]
+        ok = p.returncode == 0 and not warn and not unc
+        print('%s: exit=%d reach_warning=%s uncovered_sites=%s' % (pid, p.returncode, warn, unc), flush=True)
+        bad += 0 if ok else 1
+    print('reach self-test: %s' % ('OK' if not bad else '%d checks have holes' % bad))
+    return 0 if not bad else 1
+
+
 def main(argv):
     if not argv:
         print(__doc__)
@@ -86,5 +107,7 @@ def main(argv):
         return determinism(argv[1:])
     if argv[0] == 'seeded':
         return seeded(argv[1:])
+    if argv[0] == 'reach':
+        return reach(argv[1:])
     print(__doc__)
     return 2
